@@ -28,7 +28,7 @@ DEP_ADDING = {"pixee:python/url-sandbox", "pixee:python/sandbox-process-creation
 DETECTORLESS = {"pixee:python/use-set-literal", "pixee:python/use-generator", "pixee:python/fix-assert-tuple", "pixee:python/fix-mutable-params",
                 "pixee:python/use-defusedxml", "pixee:python/harden-pickle-load", "pixee:python/subprocess-shell-false"}
 
-LAYOUTS = ["lf", "crlf", "cr", "nofinalnl", "bom", "formfeed", "unicodesep", "tabs", "trailingws", "nonascii", "vtab"]
+LAYOUTS = ["lf", "crlf", "cr", "nofinalnl", "bom", "formfeed", "unicodesep", "tabs", "trailingws", "nonascii", "vtab", "mixedeol"]
 
 
 def apply_layout(text: str, layout: str) -> str:
@@ -38,6 +38,10 @@ def apply_layout(text: str, layout: str) -> str:
         return text.replace("\n", "\r\n")
     if layout == "cr":
         return text.replace("\n", "\r")
+    if layout == "mixedeol":
+        # a file whose first line ends in CRLF, the others in LF (and a trailing CRLF line): edited on several systems
+        first, _, rest = text.partition("\n")
+        return first + "\r\n" + rest + "tail = 1\r\n"
     if layout == "nofinalnl":
         return text.rstrip("\n")
     if layout == "bom":
@@ -76,6 +80,8 @@ MANIFESTS = {
     # setup.py is a manifest AND holds the very trigger whose fix needs the new package: the same codemod rewrites the
     # file and then adds the dependency to it (filled in by project_files: the program text followed by the setup() call)
     "setuppy-self": {"setup.py": None},
+    # trailing blank lines after the last requirement
+    "requirements-blanktail": {"requirements.txt": "requests==2.31.0\nflask>=2.0\n\n\n"},
     "setupcfg": {"setup.cfg": "[metadata]\nname = demo\n\n[options]\ninstall_requires =\n    requests\n    flask>=2.0\n"},
     "pyproject+requirements": {
         "pyproject.toml": '[project]\nname = "demo"\nversion = "0.1"\ndependencies = [\n    "requests",\n]\n',
